@@ -13,8 +13,10 @@ package main
 import (
 	"fmt"
 	"os"
+	"os/signal"
 	"runtime"
 	"sync"
+	"syscall"
 
 	"verifharness/internal/ev"
 )
@@ -26,6 +28,7 @@ func main() {
 		"cache size in {1,2,3,8,100}, maxSize from 1 B to 2^64-1 incl. exact cumulative-size boundaries, 1-2 shards on one ShardCache, with or without several calls in progress; " +
 		"layer 2: real engine (SnapshotEntries 10, CompactionOverhead 3, LogCacheSize in {1,2,3,8,100}), put/delete/txn histories in phases that also contain commands stored WITH a leader_index of their own (SEQUENCE with labelled sub-commands as the replication worker proposes, PUT_BATCH as a restore proposes, both proposed by the harness on the table shard; every second history starts from a table restored through Engine.Restore from a stream ending with the leader-index marker), after each phase every start index 0..applied+2 (+2 beyond) " +
 		"on 6 real gRPC LogServers (cached/uncached reader x 200 B/1 KiB/4 MiB), then calls concurrent with a writer; a tailing follower polls the cached server after every proposal (so the cache holds the recent entries when a compaction happens) and after each phase the cached servers are first asked for exactly the compaction index and its neighbours. " +
+		"layer 3: the real `regatta leader` binary (command-line wiring of the replication server) started with --replication.max-send-message-size-bytes in {4096, 65536, 0} (thorough: also unset, 1024, 20000, 1 MiB) and log cache 0/3/8, a history written through the KV API with single entries above the limit (16 KiB, 200 KiB) between small ones, Replicate over plain and gzip gRPC from 1, from before/at every large entry, at applied, applied+1, applied+2. " +
 		"A case is non-trivial when at least one query was answered partly from the cache and partly from the log and at least one query came after a compaction; " +
 		"distinct by hash of the (cache shape relative to the log, query, limit class, answer length) list of its partly-cached answers")
 	r.Assume(
@@ -36,6 +39,18 @@ func main() {
 		"layer 2 samples log range and applied index before and after every call; where a compaction or a proposal crosses the requested index during the call both outcomes are accepted",
 		"request index 0: only 'no commands are streamed' is judged (InvalidArgument observed)")
 	rep := &reporter{r: r, seen: map[string]int{}}
+
+	// layer 3 starts child processes: they are killed on every way out (r.Finish exits the process,
+	// so cleanupL3 is called right before it; signals; and Pdeathsig if the driver is killed).
+	sigc := make(chan os.Signal, 1)
+	signal.Notify(sigc, os.Interrupt, syscall.SIGTERM)
+	go func() {
+		<-sigc
+		cleanupL3()
+		os.Exit(2)
+	}()
+	defer cleanupL3()
+	bin := os.Getenv("VERIF_REGATTA_BIN")
 
 	if r.Replay != "" {
 		var w witness
@@ -50,7 +65,14 @@ func main() {
 			for i := 0; i < 3 && r.Violations() == 0; i++ {
 				runL2(r, rep, w.Case)
 			}
+		case 3:
+			if base, err := scratchDir(); err == nil && bin != "" {
+				runL3(r, rep, w.Case, bin, base, 0)
+			} else {
+				fmt.Fprintln(os.Stderr, "replay of a layer-3 case needs VERIF_REGATTA_BIN (run through /verif/check)")
+			}
 		}
+		cleanupL3()
 		r.Finish()
 	}
 
@@ -62,6 +84,29 @@ func main() {
 		defer wg.Done()
 		for i := 0; i < ne; i++ {
 			runL2(r, rep, caseID{Layer: 2, Seed: r.Seed*9_000_011 + int64(i), Restore: i%2 == 0})
+		}
+	}()
+
+	// layer 3: the real binary, one start per flag value
+	wg.Add(1)
+	go func() {
+		defer wg.Done()
+		if bin == "" {
+			r.Note("VERIF_REGATTA_BIN not set (not run through /verif/check): layer 3 skipped, its floors will report it")
+			return
+		}
+		base, err := scratchDir()
+		if err != nil {
+			r.Inconclusive("scratch: " + err.Error())
+			return
+		}
+		flags := []string{"4096", "65536", "0"}
+		if r.Thorough() {
+			flags = []string{"4096", "65536", "0", "", "1024", "20000", "1048576"}
+		}
+		for i, f := range flags {
+			lc := []int{0, 8, 3}[(i+int(r.Seed))%3]
+			runL3(r, rep, caseID{Layer: 3, Seed: r.Seed*5_000_011 + int64(i), Flag: f, LogCache: lc}, bin, base, i)
 		}
 	}()
 
@@ -103,6 +148,9 @@ func main() {
 	r.FloorCount("l2_requests_exactly_at_compaction_index_judged_strictly", int64(r.Pick(6, 60)))
 	r.FloorCount("l2_streamed_commands_stored_with_own_leader_index", int64(r.Pick(50, 500)))
 	r.FloorCount("l2_restore_batches_streamed", int64(r.Pick(3, 30)))
+	r.FloorCount("binary_replicate_streams", int64(r.Pick(20, 50)))
+	r.FloorCount("oversized_entries_streamed", int64(r.Pick(10, 30)))
 	r.FloorDistinct("l1_cache_size", 5)
+	cleanupL3()
 	r.Finish()
 }
